@@ -139,6 +139,62 @@ def formatflow(sx, world, wipe):
     return "formatted"
 
 
+class ReadOutage(object):
+    """hook: the tag misses `attempts` consecutive exchanges starting at a
+    lazily chosen command that does not change the tag (n+1 choices for n
+    commands)"""
+
+    def __init__(self, sx, attempts=3):
+        self.sx, self.attempts = sx, attempts
+        self.k = 0
+        self.left = None
+
+    def __call__(self, sim, cmd):
+        if self.left is None:
+            if sim.is_write(cmd) or not self.sx.truth(self.sx.flag("outage_at_cmd_%d" % self.k)):
+                self.k += 1
+                return
+            self.left = self.attempts
+        if self.left > 0:
+            self.left -= 1
+            raise nfc.clf.TimeoutError("out of the field for a moment")
+
+
+def reread_then_write(sx, world, n):
+    """C03 over a history: the application keeps the object from tag.ndef,
+    asks has_changed while the tag misses three exchanges somewhere in the
+    re-read (every position), and then writes through the same object: the
+    picture of the reserved ranges must not have been lost on the way"""
+    kind = world.kind
+    tag, ndef = open_ndef(sx, world, "first")
+    if ndef is None:
+        sx.check(False, "well-formed-layout-not-recognised:" + kind)
+    out = ReadOutage(sx)
+    world.sim.hook = out
+    try:
+        changed = ndef.has_changed
+        res = "changed" if sx.truth(changed) else "same"
+    except nfc.tag.TagCommandError:
+        res = "error"
+    world.sim.hook = None
+    if out.left is None:
+        sx.reach("reread_without_outage")
+    else:
+        sx.reach("reread_with_outage")
+    msg = new_message(sx, n, True)
+    before = world.snapshot()
+    world.sim.writes = []
+    try:
+        ndef.octets = msg
+        res += ":written"
+    except (ValueError, AttributeError, nfc.tag.TagCommandError):
+        # refusing to write after a failed re-read is fine
+        res += ":refused"
+        sx.reach("write_after_failed_reread_refused")
+    check_area(sx, world, before, "write-after-reread")
+    return res
+
+
 class PowerCut(object):
     """hook: before every state-changing command ask a fresh symbolic Boolean
     'is power cut now?' (lazy fork: n+1 cut points for n writes)"""
